@@ -16,7 +16,7 @@ static const std::set<std::string>& derived() {
         "PDU.size", "IP.tot_len", "IP.head_len", "IP.checksum", "IPv6.payload_length", "TCP.checksum", "TCP.data_offset", "UDP.length", "UDP.checksum",
         "ICMP.checksum", "ICMP.length", "ICMPv6.checksum", "ICMPv6.length", "Dot3.length", "PPPoE.payload_length", "RC4EAPOL.length", "RSNEAPOL.length", "EAPOL.length",
         "RadioTap.length", "IPSecAH.length", "MPLS.bottom_of_stack", "EthernetII.trailer_size", "Dot1Q.trailer_size", "Dot3.trailer_size", "RadioTap.trailer_size",
-        "ICMP.trailer_size", "ICMPv6.trailer_size", "ICMPExtensionsStructure.checksum", "ICMP.extensions", "ICMPv6.extensions", "ICMP.header_size", "ICMPv6.header_size",
+        "ICMP.trailer_size", "ICMPv6.trailer_size", "IP.advertised_size", "RSNEAPOL.key_length", "RSNEAPOL.wpa_length",
     };
     return s;
 }
@@ -28,11 +28,21 @@ static const std::set<std::string>& tags() {
     return s;
 }
 
-struct LayerView { std::string cls; std::vector<std::pair<std::string, std::string>> kv; bool is_raw; Bytes raw; bool next_is_raw_nonempty; bool has_next; };
+// For the RFC 4884 message types the second word of the header holds the derived length octet; these getters overlay it.
+static const std::set<std::string>& rfc4884_alias() {
+    static const std::set<std::string> s = {"ICMP.id", "ICMP.gateway", "ICMP.mtu", "ICMP.pointer", "ICMP.sequence", "ICMPv6.identifier", "ICMPv6.hop_limit", "ICMPv6.maximum_response_code",
+        "ICMPv6.router_pref", "ICMPv6.home_agent", "ICMPv6.other", "ICMPv6.managed", "ICMPv6.router", "ICMPv6.solicited", "ICMPv6.override", "ICMPv6.reserved", "ICMPv6.multicast_address_records",
+        "ICMPv6.sources", "ICMPv6.supress", "ICMPv6.qrv", "ICMPv6.qqic", "ICMPv6.mtu"};
+    return s;
+}
+struct LayerView { std::string cls; std::vector<std::pair<std::string, std::string>> kv; bool is_raw; Bytes raw; bool next_is_raw_nonempty; bool has_next; u32 rem_size; bool rfc4884; };
 static std::vector<LayerView> views(const PDU* p) {
     std::vector<LayerView> out;
     for (const PDU* q = p; q; q = q->inner_pdu()) {
         LayerView lv; View v; lv.cls = describe_layer(*q, v); lv.kv = v.kv; const RawPDU* r = dynamic_cast<const RawPDU*>(q); lv.is_raw = r != nullptr; if (r) lv.raw = r->payload();
+        lv.rem_size = q->size(); lv.rfc4884 = false;
+        if (const ICMP* ic = dynamic_cast<const ICMP*>(q)) lv.rfc4884 = ic->type() == ICMP::DEST_UNREACHABLE || ic->type() == ICMP::TIME_EXCEEDED || ic->type() == ICMP::PARAM_PROBLEM;
+        if (const ICMPv6* i6 = dynamic_cast<const ICMPv6*>(q)) lv.rfc4884 = i6->type() == ICMPv6::DEST_UNREACHABLE || i6->type() == ICMPv6::TIME_EXCEEDED;
         const PDU* n = q->inner_pdu(); lv.has_next = n != nullptr; const RawPDU* nr = n ? dynamic_cast<const RawPDU*>(n) : nullptr; lv.next_is_raw_nonempty = nr && nr->payload_size() > 0;
         out.push_back(std::move(lv));
         if (out.size() > 300) break;
@@ -46,18 +56,23 @@ static std::string chain_str(const std::vector<LayerView>& v) { std::string s; f
 
 static void compare(const std::string& ename, const std::vector<LayerView>& a0, const std::vector<LayerView>& b0, const Bytes& y, const std::string& ctx) {
     std::vector<LayerView> a = a0, b = b0; strip_empty_tail(a); strip_empty_tail(b);
+    // minimum-frame padding: some Ethernet-like layer of the re-parsed packet carries a frame of at most 64 bytes
+    bool min_frame = false; for (auto& l : b0) if ((l.cls == "EthernetII" || l.cls == "Dot3" || l.cls == "Dot1Q") && l.rem_size <= 64) min_frame = true;
+    bool icmp_pad = false; for (auto& l : b0) if (l.rfc4884) icmp_pad = true;      // RFC 4884: original datagram zero-padded to a word boundary
+    (void)y;
     // Ethernet minimum-frame padding exposed by the re-parse as a trailing all-zero payload
-    if (b.size() == a.size() + 1 && b.back().is_raw && all_zero(b.back().raw) && y.size() <= 64) { cnt("normalised:min-frame-padding-as-payload"); b.pop_back(); b.back().has_next = a.back().has_next; b.back().next_is_raw_nonempty = a.back().next_is_raw_nonempty; }
+    if (b.size() == a.size() + 1 && b.back().is_raw && all_zero(b.back().raw) && min_frame) { cnt("normalised:min-frame-padding-as-payload"); b.pop_back(); b.back().has_next = a.back().has_next; b.back().next_is_raw_nonempty = a.back().next_is_raw_nonempty; }
     if (a.size() != b.size() || chain_str(a) != chain_str(b)) { violation("layers-differ/" + ename + "/" + (a.empty() ? "?" : a[0].cls), "parsed " + chain_str(a) + " but the re-parse of its serialization gives " + chain_str(b) + " :: " + ctx); return; }
     for (size_t i = 0; i < a.size(); ++i) {
         const LayerView& x = a[i]; const LayerView& z = b[i];
         if (x.is_raw) { if (x.raw != z.raw) { Bytes zr = z.raw; // padding appended to the innermost payload of a short frame
-                if (i + 1 == a.size() && zr.size() > x.raw.size() && y.size() <= 64 && std::equal(x.raw.begin(), x.raw.end(), zr.begin()) && all_zero(Bytes(zr.begin() + x.raw.size(), zr.end()))) { cnt("normalised:min-frame-padding-appended"); continue; }
+                if (i + 1 == a.size() && zr.size() > x.raw.size() && (min_frame || (icmp_pad && zr.size() - x.raw.size() < 8)) && std::equal(x.raw.begin(), x.raw.end(), zr.begin()) && all_zero(Bytes(zr.begin() + x.raw.size(), zr.end()))) { cnt(min_frame ? "normalised:min-frame-padding-appended" : "normalised:rfc4884-word-padding-appended"); continue; }
                 violation("payload-differs/" + ename + "/" + (i ? a[i - 1].cls : "root"), "payload bytes changed: " + hex(x.raw, 40) + " -> " + hex(z.raw, 40) + " :: " + ctx); return; } continue; }
         for (size_t k = 0; k < x.kv.size() && k < z.kv.size(); ++k) {
             const std::string& key = x.kv[k].first; if (key == "class") continue;
             if (x.kv[k].second == z.kv[k].second) continue;
             if (derived().count(key)) { cnt("derived_field_changed"); continue; }
+            if (x.rfc4884 && rfc4884_alias().count(key)) { cnt("rfc4884_length_alias_changed"); continue; }
             if (tags().count(key)) { if (!x.next_is_raw_nonempty) { cnt(x.has_next ? "tag_rederived_for_recognised_payload" : "tag_free_without_payload"); continue; } }
             violation("view-differs/" + key, key + ": " + x.kv[k].second.substr(0, 120) + " -> " + z.kv[k].second.substr(0, 120) + " in layer " + std::to_string(i) + " of " + chain_str(a) + " :: " + ctx); return;
         }
@@ -79,6 +94,7 @@ int main(int argc, char** argv) {
             try { ExactBuf buf(in); p.reset(e.parse(buf.data(), (u32)in.size())); } catch (...) { cnt("rejected_inputs"); return; }
             if (!p) { cnt("rejected_inputs"); return; }
             if (not_serializable_root(p.get()) || ip_root_needs_routing(p.get())) { cnt("skipped_not_serializable_or_routing"); return; }
+            if (e.name == "cap:EN10MB" && (!p->inner_pdu() || (dynamic_cast<Dot3*>(p.get()) && p->size() > 1514))) { cnt("skipped_en10mb_dispatch_not_preservable"); return; }
             std::vector<LayerView> va = views(p.get());
             Bytes y; try { y = p->serialize(); } catch (...) { cnt("serialize_threw(C02's business)"); return; }
             if (y.size() > 65535) { cnt("skipped_oversize"); return; }
